@@ -1,13 +1,18 @@
 -------------------------------- MODULE Take --------------------------------
 (***************************************************************************)
-(* take / clone / clear as value operations (C15) on SelectStatement: two  *)
-(* statement registers so that later mutations of either can be            *)
-(* interleaved.  m1, m2 are Stmt.tla builder states; h1, h2 the call       *)
-(* histories that would rebuild them from a new statement.                 *)
+(* take / clone / clear as value operations (C15) on the builders that     *)
+(* offer them: SelectStatement (take, clone, five clear / reset            *)
+(* operations), UpdateStatement and DeleteStatement (clone, clear_order_by)*)
+(* and WindowStatement (take, clone, clear_order_by).  Two registers of    *)
+(* the same kind K so that later mutations of either can be interleaved.   *)
+(* m1, m2 are Stmt.tla builder states; h1, h2 the call histories that      *)
+(* would rebuild them from a new statement.                                *)
 (***************************************************************************)
 EXTENDS Stmt
 
 ClearOps == {"clear_selects", "from_clear", "reset_limit", "reset_offset", "clear_order_by"}
+ClearOpsOf(K) == IF K = "select" THEN ClearOps ELSE {"clear_order_by"}
+HasTake(K) == K \in {"select", "window"}
 \* which calls feed the clause a clear operation empties
 FeedsCleared(clearOp, op) ==
   CASE clearOp = "clear_selects" -> op \in {"column", "expr", "expr_as", "expr_window", "expr_window_name"}
@@ -18,18 +23,18 @@ FeedsCleared(clearOp, op) ==
 Without(h, clearOp) == SelectSeq(h, LAMBDA c : ~FeedsCleared(clearOp, c.op))
 
 \* one step on registers [m1, m2, h1, h2]; c.reg = 2 addresses the second register
-StepRegs(R, c) ==
-  CASE c.op = "take" -> [m1 |-> NewSelect, m2 |-> R.m1, h1 |-> <<>>, h2 |-> R.h1]
+StepRegsK(K, R, c) ==
+  CASE c.op = "take" -> [m1 |-> NewOf(K), m2 |-> R.m1, h1 |-> <<>>, h2 |-> R.h1]
     [] c.op = "clone" -> [R EXCEPT !.m2 = R.m1, !.h2 = R.h1]
     [] c.op \in ClearOps ->
          IF "reg" \in DOMAIN c /\ c.reg = 2
-         THEN [R EXCEPT !.m2 = ApplySelect(@, c), !.h2 = Without(@, c.op)]
-         ELSE [R EXCEPT !.m1 = ApplySelect(@, c), !.h1 = Without(@, c.op)]
+         THEN [R EXCEPT !.m2 = ApplyCall(@, c), !.h2 = Without(@, c.op)]
+         ELSE [R EXCEPT !.m1 = ApplyCall(@, c), !.h1 = Without(@, c.op)]
     [] OTHER ->
          IF "reg" \in DOMAIN c /\ c.reg = 2
-         THEN [R EXCEPT !.m2 = ApplySelect(@, c), !.h2 = Append(@, c)]
-         ELSE [R EXCEPT !.m1 = ApplySelect(@, c), !.h1 = Append(@, c)]
-InitRegs == [m1 |-> NewSelect, m2 |-> NewSelect, h1 |-> <<>>, h2 |-> <<>>]
-RECURSIVE RegsAfter(_, _)
-RegsAfter(calls, n) == IF n = 0 THEN InitRegs ELSE StepRegs(RegsAfter(calls, n - 1), calls[n])
+         THEN [R EXCEPT !.m2 = ApplyCall(@, c), !.h2 = Append(@, c)]
+         ELSE [R EXCEPT !.m1 = ApplyCall(@, c), !.h1 = Append(@, c)]
+InitRegsK(K) == [m1 |-> NewOf(K), m2 |-> NewOf(K), h1 |-> <<>>, h2 |-> <<>>]
+RECURSIVE RegsAfterK(_, _, _)
+RegsAfterK(K, calls, n) == IF n = 0 THEN InitRegsK(K) ELSE StepRegsK(K, RegsAfterK(K, calls, n - 1), calls[n])
 =============================================================================
